@@ -817,25 +817,30 @@ def hash_sign(prog):
     out = []
     for adt in PTRS:
         fn = prog.find1(name="cached_semantic_hash", self_adt=adt, unit="rsdd-lib")
-        te = fn.terms
-        arms = gamma_arms(te, te.ret) or {}
         errs = []
         n = 0
-        for v, t in arms.items():
-            names = [v] if isinstance(v, str) else list(v[1]) if isinstance(v, tuple) else []
-            t = strip(t)
-            for nme in names:
+        # evaluated per variant of the pointer (canon.paths_under), so the spelling of the match does not matter
+        for nme in sorted(NEG_VARIANTS | REG_VARIANTS):
+            if nme not in [v["name"] for v in prog.adts[adt]["variants"]]:
+                continue
+            rs = canon.paths_under(fn, ("param", 1), nme)
+            if not rs:
+                errs.append("?no value evaluated for %s" % nme)
+                continue
+            for t in rs:
+                t = strip(t)
+                n += 1
                 if nme in NEG_VARIANTS:
-                    n += 1
-                    ok = mir.is_call(t, "negate") and mir.is_call(strip(t[2][0]), "cached_semantic_hash") and \
-                        mir.is_call(strip(strip(t[2][0])[2][0]), "neg") and strip(strip(strip(t[2][0])[2][0])[2][0]) == ("param", 1)
+                    inner = strip(t[2][0]) if mir.is_call(t, "negate") and t[2] else None
+                    arg = strip(inner[2][0]) if inner is not None and mir.is_call(inner, "cached_semantic_hash") and inner[2] else None
+                    ok = arg is not None and ((mir.is_call(arg, "neg") and strip(arg[2][0]) == ("param", 1)) or
+                                              (arg[0] == "field" and arg[1][0] == "as" and strip(arg[1][1]) == ("param", 1) and arg[1][2] == nme))
                     if not ok:
-                        errs.append("hash of a complemented pointer (%s) is %s, expected negate(hash(¬p))" % (nme, show(t)[:80]))
-                elif nme in REG_VARIANTS:
-                    n += 1
+                        errs.append("hash of a complemented pointer (%s) is %s, expected negate(hash of its node)" % (nme, show(t)[:80]))
+                else:
                     if not (mir.is_call(t, "cached_semantic_hash") and not mir.is_call(t, "negate")):
                         errs.append("hash of a regular pointer (%s) is %s" % (nme, show(t)[:80]))
-        if n < 2:
+        if n < 2 and not errs:
             errs.append("?variant arms not recognised")
         out.append(inst("CP", "%s::cached_semantic_hash:sign" % adt, VIOLATION if errs else OK, fn, None,
                         "; ".join(errs[:2]) if errs else "H(¬p) = negate(H(p)); regular pointers hash their node"))
